@@ -91,7 +91,7 @@ class Ctx:
         self.log("gen %s/%s: %d cases, %.1fs" % (module, r.cfg, len(cases), r.wall_s))
         return cases
 
-    def gen_printed(self, module, cfg=None, env=None, workers=1, timeout=3000, prefix="@@", parallel=1, **kw):
+    def gen_printed(self, module, cfg=None, env=None, workers=1, timeout=3000, prefix="@@", parallel=1, sample=None, **kw):
         """Generator that prints one JSON document per line with a prefix (from PrintT).
         parallel=k runs k single-worker TLC simulations with seeds seed, seed+1, ... (reproducible) and concatenates."""
         if parallel > 1 and kw.get("simulate"):
@@ -121,14 +121,18 @@ class Ctx:
             r = run_tlc(module, cfg, workers=workers, tag=self.tag(module), env=env, timeout=timeout, **kw)
         except TlcError as ex:
             raise Machinery(str(ex))
+        lines = sorted(l.strip() for l in r.stdout.splitlines() if l.lstrip().startswith('"' + prefix))
+        r["stdout"] = ""
+        total = len(lines)
+        if sample is not None and total > sample:      # reproducible sample taken before parsing (memory)
+            lines = self.rng.sample(lines, sample)
         cases = []
-        for line in r.stdout.splitlines():
-            line = line.strip()
-            if line.startswith('"' + prefix):
-                s = json.loads(line)  # TLC prints a TLA+ string with escapes compatible with JSON
-                cases.append(json.loads(s[len(prefix):]))
+        for line in lines:
+            s = json.loads(line)  # TLC prints a TLA+ string with escapes compatible with JSON
+            cases.append(json.loads(s[len(prefix):]))
+        del lines
         self.tlc_runs.append({"role": "generate", "module": module, "cfg": r.cfg, "generated": r.generated,
-                              "distinct": r.distinct, "cases": len(cases), "wall_s": r.wall_s})
+                              "distinct": r.distinct, "cases": len(cases), "of": total, "wall_s": r.wall_s})
         self.states += r.distinct
         self.transitions += r.generated
         self.log("gen %s/%s: %d cases, %.1fs" % (module, r.cfg, len(cases), r.wall_s))
@@ -273,7 +277,14 @@ def _shorten(r, lim=600):
 
 
 # ---- known findings ---------------------------------------------------------------------
-def load_findings():
+def load_findings(pid=""):
+    if pid.startswith("X"):   # extension checks (beyond the 20 listed properties) keep their own list
+        p = os.path.join(VERIF, "ext_findings.json")
+        return json.load(open(p)) if os.path.exists(p) else []
+    return _load_findings()
+
+
+def _load_findings():
     p = os.path.join(VERIF, "known_findings.json")
     if not os.path.exists(p):
         return []
@@ -336,7 +347,8 @@ def finding_matches(f, pid, rej):
 
 # ---- finishing: classify, reproduce, evidence, exit code -----------------------------------
 def finish(ctx, level_note_assumptions=()):
-    findings = load_findings()
+    findings = load_findings(ctx.pid)
+    ext = ctx.pid.startswith("X")
     matched = {}
     unmatched = []
     for rej in ctx.rejected:
@@ -389,7 +401,7 @@ def finish(ctx, level_note_assumptions=()):
                "n_rejected_total": len(violations)}
         json.dump(doc, open(replay_path, "w"), indent=1)
     for fid, (f, n) in sorted(matched.items()):
-        print("KNOWN-FINDING: property=%s %s [%s, %d rejected lines]" % (ctx.pid, f["summary"], fid, n))
+        print("%s: %s=%s %s [%s, %d rejected lines]" % ("KNOWN-DEVIATION" if ext else "KNOWN-FINDING", "extension" if ext else "property", ctx.pid, f["summary"], fid, n))
     for f in findings:
         if f.get("status") == "known" and f.get("property") == ctx.pid and f["id"] not in matched \
                 and ctx.tier in f.get("tiers", ["quick", "thorough"]):
@@ -404,9 +416,9 @@ def finish(ctx, level_note_assumptions=()):
         print("rejected clauses:", json.dumps(clauses))
         for v in violations[:5]:
             print("  e.g.", json.dumps(_shorten(v["record"], 400)), "clause=", v["clause"])
-        print("VIOLATION property=%s replay=%s" % (ctx.pid, replay_path))
+        print(("DEVIATION extension=%s replay=%s" if ext else "VIOLATION property=%s replay=%s") % (ctx.pid, replay_path))
         return 1
-    print("OK property=%s tier=%s seed=%d: %d records validated, %d cases, states=%d, known findings matched=%d, wall=%.1fs" %
+    print("OK " + ("extension" if ext else "property") + "=%s tier=%s seed=%d: %d records validated, %d cases, states=%d, known findings matched=%d, wall=%.1fs" %
           (ctx.pid, ctx.tier, ctx.seed, getattr(ctx, "records_count", 0), len(ctx.cases), ctx.states, len(matched),
            time.time() - ctx.t0))
     return 0
@@ -441,6 +453,8 @@ def write_evidence(ctx, violations, matched):
           "wall_s": round(time.time() - ctx.t0, 2),
           "violations": len(violations)}
     edir = os.environ.get("VERIF_EVIDENCE_DIR", os.path.join(VERIF, "evidence"))
+    if ctx.pid.startswith("X"):
+        edir = os.path.join(edir, "ext")
     os.makedirs(edir, exist_ok=True)
     p = os.path.join(edir, ctx.pid + ".json")
     tmp = p + ".tmp"
@@ -461,7 +475,7 @@ def main(argv=None):
     seed = int(os.environ.get("VERIF_SEED", "0") or 0)
     pid = a.pid.upper()
     if a.list_findings:
-        for f in load_findings():
+        for f in load_findings(pid):
             if f["property"] == pid:
                 print(f["status"], f["id"], f["summary"], f.get("commit", ""))
         return 0
